@@ -85,6 +85,12 @@ MUTATIONS = [
  ('m62', 'C08', 'src/transform/low_rank.rs', r's/        self\.inner = Some\(inner\);\n        self\.id \+= 1;/        self.inner = Some(inner);\n        self.id += 0;/', 'low-rank update does not bump the id (mutation campaign)'),
  ('m63', 'C08', 'src/transform/low_rank.rs', r's/vals\.iter_mut\(\)\.for_each\(\|x\| \*x = x\.recip\(\)\);/vals.iter_mut().for_each(|x| *x = x.sqrt().recip());/', 'InnerMatrix::new stores lambda^(-1\/4) as the inverse square root'),
  ('m64', 'C18', 'src/mclmc.rs', r's/        self\.draw_count \+= 1;\n        self\.state = state;\n        self\.last_info = Some\(info\);\n        Ok\(\(position, progress\)\)/        self.draw_count -= 1;\n        self.state = state;\n        self.last_info = Some(info);\n        Ok((position, progress))/', 'MclmcChain::draw counts draws down (mutation campaign)'),
+ ('m66', 'C03', 'src/nuts.rs', r's/            direction,\n            1\.0,\n            start\.point\(\)\.initial_energy\(\),\n            options\.max_energy_error,/            direction,\n            1.1,\n            start.point().initial_energy(),\n            options.max_energy_error,/', 'the tree integrates with 1.1 x the step size it reports (mutation campaign)'),
+ ('m67', 'C03', 'src/nuts.rs', r's/            start\.point\(\)\.initial_energy\(\),\n            options\.max_energy_error,\n            collector,/            start.point().initial_energy(),\n            1000.0,\n            collector,/', 'the tree ignores the configured max_energy_error'),
+ ('m68', 'C02', 'src/dynamics/transformed_hamiltonian.rs', r's/out\.kinetic_energy = self\.kinetic_energy\n                    \+ math\.esh_momentum_update\(/out.kinetic_energy = self.kinetic_energy\n                    - math.esh_momentum_update(/', 'first microcanonical half-step subtracts the reported kinetic-energy change (mutation campaign)'),
+ ('m69', 'C08', 'src/transform/adapt/diagonal.rs', r's/        if self\.current_count\(\) < 3 \{\n            return false;/        if self.current_count() < 3 {\n            return true;/', 'diagonal adapt reports a change with fewer than three samples (mutation campaign)'),
+ ('m70', 'C06', 'src/external_adapt_strategy.rs', r's/\(\(num_tune as f64\) \* \(1f64 - options\.step_size_window\)\)\.floor\(\) as u64/((num_tune as f64) * (1f64 + options.step_size_window)).floor() as u64/', 'flow adaptation: final window placed after the end of warm-up (mutation campaign)'),
+ ('m71', 'C09', 'src/transform/adapt/low_rank.rs', r's/            background_split: 0,/            background_split: 1,/', 'low-rank strategy starts with a background split of 1: the first switch drops the start point only by accident of the count (mutation campaign)'),
  ('e01', 'C18', 'src/mclmc.rs', r's/&& self.draw_count == self.switch_draw/&& self.draw_count >= self.switch_draw/', 'EQUIVALENT on reachable states: must not be flagged'),
  ('e02', 'C08', 'src/math/cpu_math.rs', r's/\*mean \+= diff \* diff_scale;\n                \*var \+= diff \* diff;/*mean += diff * diff_scale;\n                *var += diff * (x - *mean);/', 'EQUIVALENT for the property (ratio of variances unchanged): must not be flagged'),
 ]
